@@ -12,7 +12,7 @@ from __future__ import annotations
 
 from ..common import Case
 from .. import grammar
-from ..grammar import Derived, Flip, Scan, accf, component_of, kern, kern_det, kern_indep, nested_first, stepf, two, NormalD, wrap
+from ..grammar import Derived, Flip, Scan, accf, component_of, kern, kern_chain, kern_det, kern_indep, nested_first, stepf, two, NormalD, wrap
 
 PROPERTY = "C12"
 LEVEL = "model_checking"
@@ -37,6 +37,7 @@ def programs(tier):
     out.append((Scan(kern(f), 3, xs=False), ("update", "regenerate")))
     out.append((Scan(kern_indep(f), 3, xs=True), ("update", "index")))
     out.append((Scan(kern_indep(two(f, f)), 2, xs=False), ("update", "index", "regenerate")))
+    out.append((Scan(kern_chain(f), 3, xs=True), ("update", "index")))
     out.append((Scan(kern(nested_first(f)), 2, xs=False), ("update",)))
     out.append((Scan(kern_det(), 3, xs=True), ("update",)))
     out.append((Scan(kern(NormalD()), 2, xs=True), ("update", "regenerate")))
